@@ -182,7 +182,7 @@ def case_key(case):
                                                     fmt_disk(f["d"]), f["pres"]["k"], f["pres"]["b"])
 
 
-def validate_events(ctx, variant, cases, events, name, max_rounds=6):
+def validate_events(ctx, variant, cases, events, name, max_rounds=6, chunk=15000):
     """I->T: TLC checks the recorded events against TraceBootTry. Returns (violations, n_cases_accepted, n_lines)."""
     violations = []
     bad = set()
@@ -196,33 +196,47 @@ def validate_events(ctx, variant, cases, events, name, max_rounds=6):
                      "plain write sequence: %s" % e.get("msg"),
                 replay={"case": c, "event": e}))
     tev = [e for e in events if e.get("ev") not in ("Beh",)]
+    # chunk on case boundaries so that one TLC run never has to hold more than ~chunk lines
+    chunks, cur, last = [], [], None
+    for e in tev:
+        if e["case"] != last and len(cur) >= chunk:
+            chunks.append(cur)
+            cur = []
+        cur.append(e)
+        last = e["case"]
+    if cur:
+        chunks.append(cur)
     n_lines = 0
-    for rnd in range(max_rounds):
-        lines = [e for e in tev if e["case"] not in bad]
-        n_lines = len(lines)
-        if not lines:
+    for ci, chunk_ev in enumerate(chunks):
+        for rnd in range(max_rounds):
+            lines = [e for e in chunk_ev if e["case"] not in bad]
+            if not lines:
+                break
+            p = os.path.join(ctx.subdir("trace_%s_%d" % (name, ci)), "trace.ndjson")
+            common.write_ndjson(p, lines)
+            tv = tlc.validate_trace(ctx, "TraceBootTry", TRACE_CFG[variant], p, timeout=1500,
+                                    name="tv_%s_%d_%d" % (name, ci, rnd))
+            if tv["accepted"]:
+                n_lines += len(lines)
+                break
+            ln = tv["stuck_line"]
+            ev = lines[min(max(ln, 1), len(lines)) - 1]
+            c = cases[ev["case"]]
+            mine = [e for e in lines if e["case"] == ev["case"]]
+            what = "invariant %s violated by the real step" % tv["invariant"] if tv["invariant"] else \
+                "real step is not a step of the spec"
+            if c["kind"] == "act":
+                plan = [w["op"] for w in c["full"]["act"]["ws"]]
+                real = [e["op"] for e in mine if e["ev"] == "W"]
+                desc = "%s: %s; spec write plan %s, real writes %s; rejected event %s" % (
+                    case_key(c), what, plan, real, json.dumps(ev, sort_keys=True)[:400])
+            else:
+                desc = "%s: %s; rejected event %s" % (case_key(c), what, json.dumps(ev, sort_keys=True)[:400])
+            violations.append(Violation(key="%s: %s" % (case_key(c), ev["ev"]), desc=desc,
+                                        replay={"case": c, "events": mine, "rejected": ev}))
+            bad.add(ev["case"])
+        if len(violations) >= 3 * max_rounds:
             break
-        p = os.path.join(ctx.subdir("trace_" + name), "trace.ndjson")
-        common.write_ndjson(p, lines)
-        tv = tlc.validate_trace(ctx, "TraceBootTry", TRACE_CFG[variant], p, timeout=1500, name="tv_%s_%d" % (name, rnd))
-        if tv["accepted"]:
-            break
-        ln = tv["stuck_line"]
-        ev = lines[min(max(ln, 1), len(lines)) - 1]
-        c = cases[ev["case"]]
-        mine = [e for e in lines if e["case"] == ev["case"]]
-        what = "invariant %s violated by the real step" % tv["invariant"] if tv["invariant"] else \
-            "real step is not a step of the spec"
-        if c["kind"] == "act":
-            plan = [w["op"] for w in c["full"]["act"]["ws"]]
-            real = [e["op"] for e in mine if e["ev"] == "W"]
-            desc = "%s: %s; spec write plan %s, real writes %s; rejected event %s" % (
-                case_key(c), what, plan, real, json.dumps(ev, sort_keys=True)[:400])
-        else:
-            desc = "%s: %s; rejected event %s" % (case_key(c), what, json.dumps(ev, sort_keys=True)[:400])
-        violations.append(Violation(key="%s: %s" % (case_key(c), ev["ev"]), desc=desc,
-                                    replay={"case": c, "events": mine, "rejected": ev}))
-        bad.add(ev["case"])
     ncases = len({e["case"] for e in tev}) - len(bad)
     return violations, ncases, n_lines
 
